@@ -884,3 +884,28 @@ package ro
 //@   props C05 C07
 //@   track destination.* subscriptions.*
 //@   ensures [error-ends-the-output-and-releases-the-others|C05] trace(destination.ErrorWithContext(ctx, err), subscriptions.Unsubscribe())
+
+//@ operator Serialize
+//@   props C02 C08
+//@   note Serialize is the identity on notifications; its whole meaning is its constructor: the locking one, whose Next blocks until the downstream is free (never dropping)
+//@   constructor NewSafeObservableWithContext
+//@   track source.SubscribeWithContext
+//@   on subscribe(ctx, destination) : emits source.SubscribeWithContext(ctx, destination)
+
+//@ operator FlatMapIWithContext
+//@   props C04 C05 C08 C09
+//@   note the projection stage: every value becomes the observable the user function returns for it (with the running index); the stage is flattened by ConcatAll (see FlatMapIWithContext$1)
+//@   ghost n int = 0
+//@   inv i == n
+//@   on next(ctx, value) : emits Next(ctx, project_0(ctx, value, n)) ; n' = n + 1
+
+//@ func FlatMapIWithContext$1
+//@   props C04 C05 C08
+//@   track call.ConcatAll call.NewUnsafeObservableWithContext callfn.ANY
+//@   ensures [inner-observables-are-concatenated-not-merged|C04,C05,C08] trace(call.ConcatAll(), call.NewUnsafeObservableWithContext(_), callfn.ANY)
+
+//@ func CollectWithContext
+//@   props C06 C17
+//@   alias sub=obs.SubscribeWithContext()
+//@   track obs.*
+//@   ensures [returns-only-after-the-subscription-ended|C06] trace(obs.SubscribeWithContext(ctx, _), sub.Wait())
